@@ -521,38 +521,45 @@ Section Pick.
   Variables t1 t2 : list str.
   Let Q (d : bcmd) : Prop := forall len, same_ok (parse (b_fmt d) len t1) (parse (b_fmt d) len t2).
 
+  Lemma help_lenient_same f : same_ok (parse f true t1) (parse f true t2) -> help_lenient f t1 = help_lenient f t2.
+  Proof.
+    unfold help_lenient, same_ok. destruct (parse f true t1) as [x|k]; [intros [x2 ->]; reflexivity|intros ->; reflexivity].
+  Qed.
+
   Lemma pick_default_switch : forall ds first1 first2,
     Forall Q ds -> option_map fst first1 = option_map fst first2 -> (forall b k, first1 = Some (b, k) -> Q b) ->
-    match pick_default ds t1 first1 with
-    | Err k => pick_default ds t2 first2 = Err k
-    | Ok None => pick_default ds t2 first2 = Ok None
-    | Ok (Some (d, _)) => Q d /\ exists r2, pick_default ds t2 first2 = Ok (Some (d, r2))
+    match help_pick_default ds t1 first1 with
+    | Err k => help_pick_default ds t2 first2 = Err k
+    | Ok None => help_pick_default ds t2 first2 = Ok None
+    | Ok (Some (d, _)) => Q d /\ exists r2, help_pick_default ds t2 first2 = Ok (Some (d, r2))
     end.
   Proof.
-    induction ds as [|d r IH]; intros first1 first2 Hds Hf Hq; cbn [pick_default].
+    induction ds as [|d r IH]; intros first1 first2 Hds Hf Hq; cbn [help_pick_default].
     - destruct first1 as [[b1 k1]|], first2 as [[b2 k2]|]; cbn in Hf; try discriminate; [|reflexivity].
       inversion Hf; subst. split; [eapply Hq; eauto|eauto].
     - inversion Hds as [|? ? Hd Hr]; subst. pose proof (Hd (b_lenient d)) as Hp. unfold same_ok in Hp.
       destruct (parse (b_fmt d) (b_lenient d) t1) as [x|k].
       + destruct Hp as [x2 ->]. split; [exact Hd|eauto].
       + rewrite Hp. destruct k; try reflexivity.
-        apply IH; [exact Hr| |].
-        * destruct first1 as [[b1 k1]|], first2 as [[b2 k2]|]; cbn in Hf |- *; try discriminate; auto.
-        * intros b k E. destruct first1 as [[b1 k1]|]; [eapply Hq; eauto|]. inversion E; subst. exact Hd.
+        * apply IH; [exact Hr| |].
+          -- destruct first1 as [[b1 k1]|], first2 as [[b2 k2]|]; cbn in Hf |- *; try discriminate; auto.
+          -- intros b k E. destruct first1 as [[b1 k1]|]; [eapply Hq; eauto|]. inversion E; subst. exact Hd.
+        * apply IH; [exact Hr| |].
+          -- destruct first1 as [[b1 k1]|], first2 as [[b2 k2]|]; cbn in Hf |- *; try discriminate; auto.
+          -- intros b k E. destruct first1 as [[b1 k1]|]; [eapply Hq; eauto|]. inversion E; subst. exact Hd.
   Qed.
 
   (* ... followed by the lenient parse of the command picked *)
   Lemma pick_then_parse {Y} ds (K : bcmd -> Y) (alt1 alt2 : res Y) :
     Forall Q ds -> alt1 = alt2 ->
-    (do d <- pick_default ds t1 None;
-     match d with Some (dc, _) => do x <- parse (b_fmt dc) true t1; Ok (K dc) | None => alt1 end) =
-    (do d <- pick_default ds t2 None;
-     match d with Some (dc, _) => do x <- parse (b_fmt dc) true t2; Ok (K dc) | None => alt2 end).
+    (do d <- help_pick_default ds t1 None;
+     match d with Some (dc, _) => do x <- help_lenient (b_fmt dc) t1; Ok (K dc) | None => alt1 end) =
+    (do d <- help_pick_default ds t2 None;
+     match d with Some (dc, _) => do x <- help_lenient (b_fmt dc) t2; Ok (K dc) | None => alt2 end).
   Proof.
     intros Hds <-. pose proof (pick_default_switch ds None None Hds eq_refl ltac:(discriminate)) as H.
-    destruct (pick_default ds t1 None) as [[[d r1]|]|k].
-    - destruct H as [Hd [r2 ->]]. cbn [bind]. specialize (Hd true). unfold same_ok in Hd.
-      destruct (parse (b_fmt d) true t1) as [x|k]; [destruct Hd as [x2 ->]|rewrite Hd]; reflexivity.
+    destruct (help_pick_default ds t1 None) as [[[d r1]|]|k].
+    - destruct H as [Hd [r2 ->]]. cbn [bind]. now rewrite (help_lenient_same (b_fmt d) (Hd true)).
     - rewrite H. reflexivity.
     - rewrite H. reflexivity.
   Qed.
@@ -584,8 +591,7 @@ Proof.
   - pose proof (walk_tree_ok (carries o) path (ap_cmds a) None b p Ht ltac:(discriminate) Hw) as Hb.
     apply tree_ok_unfold in Hb as [Hc Hsubs].
     apply (pick_then_parse path (path ++ [sw]) (defaults_of (b_subs b)) (fun dc => p ++ [b_name dc])); [apply Hdefs, Hsubs|].
-    pose proof (parse_switch _ o sw true path Hc Hnv Hsw Hl) as Hp. unfold same_ok in Hp.
-    destruct (parse (b_fmt b) true path) as [x|k]; [destruct Hp as [x2 ->]|rewrite Hp]; reflexivity.
+    now rewrite (help_lenient_same path (path ++ [sw]) (b_fmt b) (parse_switch _ o sw true path Hc Hnv Hsw Hl)).
   - destruct path as [|t r]; [|reflexivity].
     apply (pick_then_parse [] ([] ++ [sw]) (defaults_of (ap_cmds a)) (fun dc => [b_name dc])); [apply Hdefs, Ht|reflexivity].
 Qed.
@@ -713,6 +719,6 @@ Proof.
   { rewrite help_word_dropped by exact Hh. unfold help_target.
     assert ((match path with t :: r => if str_eqb t S_help then r else path | [] => [] end) = path) as ->.
     { destruct path as [|t r]; [reflexivity|now rewrite Hh]. }
-    rewrite (leading_all _ Hl), Hw. cbn [bind]. rewrite Hdef. cbn [pick_default bind]. now rewrite Hp. }
+    rewrite (leading_all _ Hl), Hw. cbn [bind]. rewrite Hdef. cbn [help_pick_default bind]. unfold help_lenient. now rewrite Hp. }
   rewrite <- E1, <- E2. auto.
 Qed.
